@@ -128,7 +128,6 @@ class RenderNode(Node):
             # `self.loop` being True indicates the render expression used "for" not
             # "with". This distinction is not made when using the 'include' tag.
             if self.loop and isinstance(val, (tuple, list, IterableDrop)):
-                ctx.raise_for_loop_limit(len(val))
                 forloop = ForLoop(
                     name=key,
                     it=iter(val),
@@ -139,11 +138,12 @@ class RenderNode(Node):
                 args["forloop"] = forloop
                 args[key] = None
 
-                for itm in forloop:
-                    args[key] = itm
-                    template.render_with_context(
-                        ctx, buffer, partial=True, block_scope=True
-                    )
+                with ctx.iterations(len(val)):
+                    for itm in forloop:
+                        args[key] = itm
+                        template.render_with_context(
+                            ctx, buffer, partial=True, block_scope=True
+                        )
             else:
                 # The bound variable is not array-like, shove it into the namespace
                 # via args.
@@ -208,7 +208,6 @@ class RenderNode(Node):
             # `self.loop` being True indicates the render expression used "for" not
             # "with". This distinction is not made when using the 'include' tag.
             if self.loop and isinstance(val, (tuple, list, IterableDrop)):
-                ctx.raise_for_loop_limit(len(val))
                 forloop = ForLoop(
                     name=key,
                     it=iter(val),
@@ -219,11 +218,12 @@ class RenderNode(Node):
                 args["forloop"] = forloop
                 args[key] = None
 
-                for itm in forloop:
-                    args[key] = itm
-                    await template.render_with_context_async(
-                        ctx, buffer, partial=True, block_scope=True
-                    )
+                with ctx.iterations(len(val)):
+                    for itm in forloop:
+                        args[key] = itm
+                        await template.render_with_context_async(
+                            ctx, buffer, partial=True, block_scope=True
+                        )
             else:
                 # The bound variable is not array-like, shove it into the namespace
                 # via args.
